@@ -67,6 +67,34 @@ def idList (l : List Nat) : String :=
 def rotate (l : List Nat) (k : Nat) : List Nat :=
   if l.isEmpty then l else let k := k % l.length; l.drop k ++ l.take k
 
+/-- dumped `used_template_params` sets: item ↦ sorted parameter ids -/
+def dumpedTemplate (g : IR) : List (Nat × List Nat) :=
+  g.results.filterMap fun (r : String × Nat × String) =>
+    if r.1 == "used_template_params" then
+      let ids := parseIds r.2.2
+      if ids.isEmpty then none else some (r.2.1, ids)
+    else none
+
+def insertSorted (x : Nat) : List Nat → List Nat
+  | [] => [x]
+  | y :: ys => if x ≤ y then x :: y :: ys else y :: insertSorted x ys
+
+def sortNat (l : List Nat) : List Nat := l.foldl (fun acc x => insertSorted x acc) []
+
+def checkTemplate (g : IR) : String :=
+  if !g.ran.contains "used_template_params" then "used_template_params=notrun"
+  else if !g.opts.allowlistRecursively then "used_template_params=skipped-nonrecursive"
+  else
+  let ts := templateSetup g
+  if ts.tps.length * ts.nodes.length > 400000 then "used_template_params=skipped-large" else
+  let model := templateSolve g
+  let dump := dumpedTemplate g
+  let look := fun (l : List (Nat × List Nat)) (n : Nat) => sortNat ((l.find? (·.1 == n)).map (·.2) |>.getD [])
+  let keys := (model.map (·.1) ++ dump.map (·.1)).eraseDups
+  let bad := keys.filter fun n => look model n != look dump n
+  if bad.isEmpty then s!"used_template_params=ok"
+  else "used_template_params=DIFF(" ++ ",".intercalate ((bad.take 6).map fun n => s!"{n}:{look model n}:{look dump n}") ++ ")"
+
 def check (g : IR) (seed : Nat) : String :=
   if g.opts.callbacks != 0 then "irchk skipped=callbacks" else
   let s := solveBase g
@@ -84,6 +112,6 @@ def check (g : IR) (seed : Nat) : String :=
       let sd := I.nodes.filter fun n => model.getD n 0 != alt1.getD n 0 || model.getD n 0 != alt2.getD n 0
       let unc := I.uncovered
       s!"{name}={res} sched_{name}={if sd.isEmpty then "ok" else "DIFF(" ++ idList (sd.take 8) ++ ")"} uncovered_{name}={idList (unc.take 40)} closed_{name}={if I.depsClosed then 1 else 0} nodes_{name}={I.nodes.length}"
-  "irchk " ++ " ".intercalate parts
+  "irchk " ++ " ".intercalate parts ++ " " ++ (checkTemplate g).replace " " ""
 
 end BindgenModel.Driver.C07
